@@ -175,3 +175,10 @@ def same(label, got, want):
   if not (HAVE_CH and _is_tracing()) and os.environ.get('VERIF_EXPLAIN'):
     sys.stderr.write('MISMATCH %s: got %r want %r\n' % (label, got, want))
   return False
+
+
+def no(label):
+  """`return rt.no('why')` = `return False`, explained in concrete replays."""
+  if os.environ.get('VERIF_EXPLAIN') and not (HAVE_CH and _is_tracing()):
+    sys.stderr.write('FAIL: %s\n' % (label,))
+  return False
